@@ -136,6 +136,10 @@ fn check_type(rep: &mut Report, c: &Case, seed: u64, nvals: usize, only: Option<
     let flat_ok = nflat <= 16;
     rep.distinct(&abi4.shape_key(&c.ty));
     rep.count(&format!("types:{}", top_kind(&abi4, &c.ty)));
+    for w in [4usize, 8] {
+        let a = Abi::new(resolve, w);
+        rep.count(if layout_disagreement(c.ctx, &a, &c.ty).is_some() { "layout:cabi-ref-vs-SizeAlign:disagree" } else { "layout:cabi-ref-vs-SizeAlign:agree" });
+    }
     let probe = mk_func("lift-probe", &[c.ty], None, false);
 
     for policy in policies_for(&abi4, c) {
@@ -383,7 +387,7 @@ fn main() {
     rep.assume("instruction semantics = doc comments of wit_bindgen_core::abi::Instruction; canonical list instructions use the canonical layout");
 
     let (nrandom, nvals) = match tier.as_str() {
-        "thorough" => (400, 160),
+        "thorough" => (1000, 120),
         "miri" => (0, 2),
         _ => (36, 20),
     };
